@@ -525,7 +525,8 @@ fn main() {
     // a generated state must fill is the number of objects of the rebuilt map = the number of values a gradual walk yields
     {
         use vh::gen::{Alphabet, Kind, MapSpec, PosK};
-        let alpha = Alphabet::product(&[Kind::Circle, Kind::Hold(300)], &[0, 150], &[PosK::Same], &[0], &[0, 1]);
+        // (a spinner-type line in a mania file is a hold note as well)
+        let alpha = Alphabet::product(&[Kind::Circle, Kind::Hold(300), Kind::Spinner(600)], &[0, 150], &[PosK::Same], &[0], &[0, 1]);
         let maxn = ctx.pick(3, 4);
         let total_maps = alpha.count_upto(maxn) - 1;
         let mods = [ModSpec::Bits(0), ModSpec::Invert, ModSpec::HoldOff, ModSpec::HoIn(None)];
@@ -541,6 +542,14 @@ fn main() {
                 Some(DifficultyAttributes::Mania(a)) => a.n_hold_notes,
                 _ => 0,
             };
+            // without a rebuilding mod the file itself says what there is to judge
+            if matches!(m, ModSpec::Bits(0)) {
+                let listed_holds = spec.objs.iter().filter(|o| matches!(o.kind, Kind::Hold(_) | Kind::Spinner(_))).count() as u32;
+                if objects != spec.objs.len() as u32 || holds != listed_holds {
+                    l.violation("mania_counts_vs_file", || format!("no mods: the file lists {} objects of which {listed_holds} are long (hold or spinner type), the calculation walks {objects} objects and counts {holds} hold notes\nspec={}\n--- .osu ---\n{}", spec.objs.len(), spec.describe(), spec.text()));
+                    return;
+                }
+            }
             let judgements = objects + if lazer { holds } else { 0 };
             l.states(1);
             if objects > 0 {
